@@ -28,6 +28,10 @@ class Bool(T):
     pass
 
 
+class Complex(T):
+    """complex scalar (dual number re + eps*im in dual mode)"""
+
+
 class Const(T):
     def __init__(self, v):
         self.v = v
